@@ -378,6 +378,23 @@ fn check_c02() {
         } }
     }
 }
+// the default DSet::r (walk + fold, outside the verifier) of the two plain D-set representations: orbit length or None
+fn check_c02_plain_r() {
+    for ds in corpus() {
+        let txt = format!("{}", ds);
+        let (n, dim) = (ds.size(), ds.dim());
+        let pset = match quiet(|| as_dset(&ds)) { Ok(p) => p, Err(_) => continue };
+        let sset: Option<SimpleDSet> = if ds.is_complete() { quiet(|| SimpleDSet::from(as_dset(&ds))).ok() } else { None };
+        for i in 0..=dim + 1 { for j in 0..=dim + 1 { for d in 0..=n + 1 {
+            let inr = i <= dim && j <= dim && d >= 1 && d <= n;
+            let exp = if inr { orbit_len(&ds, i, j, d) } else { None };
+            if n <= 6 || (i + j + d) % 3 == 0 {
+                match quiet(|| pset.r(i, j, d)) { Ok(r) => if r != exp && (exp.is_some() || !inr) { falsified("DSet::r (default, PartialDSet)", format!("{} r({},{},{})", txt, i, j, d), format!("{:?} expected {:?}", r, exp)); }, Err(e) => falsified("DSet::r (default, PartialDSet)", format!("{} r({},{},{})", txt, i, j, d), format!("panic {}", e)) }
+                if let Some(s) = &sset { match quiet(|| s.r(i, j, d)) { Ok(r) => if r != exp { falsified("DSet::r (default, SimpleDSet)", format!("{} r({},{},{})", txt, i, j, d), format!("{:?} expected {:?}", r, exp)); }, Err(e) => falsified("DSet::r (default, SimpleDSet)", format!("{} r({},{},{})", txt, i, j, d), format!("panic {}", e)) } }
+            }
+        } } }
+    }
+}
 fn check_c01() {
     let mut inputs: Vec<String> = corpus().iter().map(|d| format!("{}", d)).collect();
     for s in ["", "<", "<1.1:1:2,1,1:3,3>", "<1.1:3:2 2,1 2 3,1 2 3:3,3>", "<1.1:1:0,1,1:3,3>", "<1.1:2 18446744073709551615:2,2,2:3,3>",
@@ -730,7 +747,7 @@ fn main() {
     let prop = std::env::args().nth(1).unwrap_or_default();
     std::panic::set_hook(Box::new(|_| {}));
     match prop.as_str() {
-        "C01" => check_c01(), "C02" => { check_c02(); check_c02_graph(); }, "C04" => { check_c04(); check_c04_minimal(); }, "C05" => { check_c05(); check_c05_covers(); },
+        "C01" => check_c01(), "C02" => { check_c02(); check_c02_graph(); check_c02_plain_r(); }, "C04" => { check_c04(); check_c04_minimal(); }, "C05" => { check_c05(); check_c05_covers(); },
         "C10" => check_c10(), "C11" => { check_c11(); check_c11_random(); }, "C18" => { check_c18(); check_c18_exact(); check_c18_modular(); }, "C20" => { check_c20(); check_c20_unions(); },
         _ => { eprintln!("unknown property"); std::process::exit(2); }
     }
